@@ -147,6 +147,13 @@ void task_group_context_impl::bind_to_impl(d1::task_group_context& ctx, thread_d
         }
         register_with(ctx, td); // Issues full fence
 
+        // The may_have_children flag of the parent was published with a relaxed store. A thread cancelling
+        // the parent that did not see it yet skips the propagation entirely, and the speculative load above
+        // may have been performed before its state change. Re-read the parent's state after the fence.
+        if (ctx.my_parent->my_cancellation_requested.load(std::memory_order_relaxed)) {
+            ctx.my_cancellation_requested.store(1, std::memory_order_relaxed);
+        }
+
         // If no state propagation was detected by the following condition, the above
         // full fence guarantees that the parent had correct state during speculative
         // propagation before the fence. Otherwise the propagation from parent is
